@@ -335,3 +335,43 @@ func retentionRejoin(c *common.Ctx, idx int) error {
 	s.checkReplica(r1)
 	return nil
 }
+
+// retentionOff: retention turned off on the primary (data.retention: 0 - files are kept for ever). A replica that joins
+// late is brought up with a snapshot like on any other primary.
+func retentionOff(c *common.Ctx) error {
+	r := c.Rng.Fork()
+	dir, err := os.MkdirTemp(c.OutDir, "c01z-")
+	if err != nil {
+		return err
+	}
+	defer os.RemoveAll(dir)
+	cl := cluster.New(dir, 2*time.Second)
+	cl.Opts = func(name string, st *litefs.Store) { st.Retention = 0 }
+	defer cl.Close()
+	p, err := cl.Start("p", true)
+	if err != nil {
+		return err
+	}
+	if cl.WaitPrimary(5*time.Second) == nil {
+		return fmt.Errorf("no primary")
+	}
+	h := hist.NewOn(c, r.Fork(), hist.Config{PageSize: 512}, p.Store, p.Exits, "db", nil, 0, false)
+	if err := commitRec(h, 3, func(hist.Obs) {}); err != nil {
+		return err
+	}
+	r1, err := cl.Start("r1", false)
+	if err != nil {
+		return err
+	}
+	pp := p.Store.DB("db").Pos()
+	c.Evaluations++
+	c.Distinct("retention-off:late-joiner")
+	if !cluster.WaitPos(r1, "db", uint64(pp.TXID), uint64(pp.PostApplyChecksum), 6*time.Second) {
+		var at ltx.Pos
+		if db := r1.Store.DB("db"); db != nil {
+			at = db.Pos()
+		}
+		c.Violate("C01:retention-off:late-joiner", fmt.Sprintf("with retention turned off on the primary (0: keep every file) a replica that joins late stays at %s while the idle primary is at %s", at, pp), map[string]any{"kind": "retention-off"})
+	}
+	return nil
+}
